@@ -42,9 +42,14 @@ func probe(what string, f func()) string {
 	case s := <-done:
 		return s
 	case <-time.After(20 * time.Second):
+		hung = true
 		return what + ": timeout (no result within 20 s)"
 	}
 }
+
+// hung is set once a call did not return: its goroutine cannot be stopped and may keep allocating, so the
+// generator records the finding and ends the run at once
+var hung bool
 
 // allReadOnly calls every niladic exported non-mutator method reachable from v (one level into options).
 func allReadOnly(bad *[]string, steps *int, label string, v any) {
@@ -205,6 +210,10 @@ func genC03(o *Out, rng *rand.Rand, tier string) {
 			rec["bad"] = []string{}
 		}
 		o.Emit(rec, cls, append([]byte(entry), in...), steps > 1)
+		if hung {
+			o.Close(o.extra)
+			os.Exit(0)
+		}
 	}
 	tryV4 := func(in []byte, cls string) {
 		var bad []string
@@ -314,6 +323,39 @@ func genC03(o *Out, rng *rand.Rand, tier string) {
 	rec(nil, []byte{0, 1, 2, 3, 82, 255}, 4, func(b []byte) { tryV4(append(append([]byte(nil), hdr4...), b...), "exhaustive-v4-area") })
 	rec(nil, []byte{0, 1, 2, 3, 8, 255}, 4, func(b []byte) { tryV6(append([]byte{1, 1, 2, 3}, b...), "exhaustive-v6-tlv") })
 	rec(nil, []byte{0, 1, 2, 3, 'a', 0xC0, 0x40}, 4, func(b []byte) { trySmall(append([]byte(nil), b...), "exhaustive-small") })
+	// the name decoder on every string of its structural alphabet up to 7 bytes (8 in the thorough tier), alone
+	// and behind the DHCPv6 domain-list option; one record per 3-byte prefix
+	lmax := 7
+	if tier == "thorough" {
+		lmax = 8
+	}
+	lalpha := []byte{0, 1, 2, 3, 'a', 0xC0, 0x40}
+	rec(nil, lalpha, 3, func(pre []byte) {
+		if len(pre) < 3 {
+			return
+		}
+		var bad []string
+		steps := 0
+		rec(append([]byte(nil), pre...), lalpha, lmax, func(b []byte) {
+			if hung {
+				return
+			}
+			in := append([]byte(nil), b...)
+			steps++
+			if s := probe("rfc1035label.FromBytes", func() {
+				if l, err := rfc1035label.FromBytes(in); err == nil {
+					_ = l.String()
+					l.ToBytes()
+				}
+				if opt, err := dhcpv6.ParseOption(dhcpv6.OptionDomainSearchList, in); err == nil {
+					opt.ToBytes()
+				}
+			}); s != "" && len(bad) < 5 {
+				bad = append(bad, fmt.Sprintf("%s on %v", s, in))
+			}
+		})
+		emit("label-scope", pre, steps, bad, "exhaustive-label")
+	})
 	// (ii) structural mutations of valid values of every option type
 	z4, z6 := ztpCorpus(rng)
 	var v4c, v6c [][]byte
